@@ -632,6 +632,12 @@ fn parse_cmap(data: &[u8]) -> Result<ToUnicodeMap> {
     Ok(map)
 }
 
+/// verification hook: the private CMap reader, reachable from the harness
+#[cfg(pdf_rs_pdf_verif)]
+pub fn verif_parse_cmap(data: &[u8]) -> Result<ToUnicodeMap> {
+    parse_cmap(data)
+}
+
 fn write_cid(w: &mut String, cid: u16) {
     write!(w, "<{:04X}>", cid).unwrap();
 }
